@@ -125,5 +125,7 @@ BoundsOnlyOfUsed(it, ev, k, whereText) ==
     LET name == MsgTypeName(it, k)
         allowed == {whereText[w] : w \in KeptWheres(it, k)}
         tws == IF HasType(ev, name) THEN SeqToSet(TypeOf(ev, name).wheres) ELSE {}
-    IN tws \subseteq allowed
+        \* the impl blocks of exactly that type (inherent and trait impls alike)
+        iws == UNION {SeqToSet(i.wheres) : i \in {x \in Range(ev.impls) : x.name = name}}
+    IN tws \subseteq allowed /\ iws \subseteq allowed
 =============================================================================
